@@ -2881,6 +2881,7 @@ header_gnutar(struct archive_read *a, struct tar *tar,
     struct archive_entry *entry, const void *h, int64_t *unconsumed)
 {
 	const struct archive_entry_header_gnutar *header;
+	char header_copy[512];
 	int64_t t;
 	int err = ARCHIVE_OK;
 
@@ -2958,9 +2959,16 @@ header_gnutar(struct archive_read *a, struct tar *tar,
 	}
 
 	if (header->sparse[0].offset[0] != 0) {
+		/*
+		 * Reading the sparse extension blocks reads ahead again,
+		 * after which 'h' no longer points at this header; keep
+		 * a copy for header_common() below.
+		 */
+		memcpy(header_copy, h, sizeof(header_copy));
 		if (gnu_sparse_old_read(a, tar, header, unconsumed)
 		    != ARCHIVE_OK)
 			return (ARCHIVE_FATAL);
+		h = header_copy;
 	} else {
 		if (header->isextended[0] != 0) {
 			/* XXX WTF? XXX */
